@@ -7,6 +7,6 @@ out={}
 for f in sorted(glob.glob('/verif/evidence/C*.json')):
     e=json.load(open(f))
     per=e['coverage'].get('per_rule',{})
-    out[e['property_id']]={"min":{r:max(1,int(math.floor(n*0.5))) for r,n in sorted(per.items())},"keys":[]}
+    out[e['property_id']]={"min":{r:(max(1,int(math.floor(n*0.5))) if n>=10 else max(1,int(math.floor(n*0.34)))) for r,n in sorted(per.items())},"keys":[]}
 json.dump(out,open('/verif/rules/anchors.json','w'),indent=1,sort_keys=True)
 print({k:sum(v['min'].values()) for k,v in out.items()})
